@@ -5,7 +5,7 @@ from bounded import emission, graphprops
 PROP = "C10"
 LEVEL = "exploration"
 ENGINE = "pyvc+bounded"
-HARNESS_MODULES = ['contracts.c04_graph_plumbing']
+HARNESS_MODULES = ['contracts.c04_graph_plumbing', 'contracts.c10_emission']
 EXTRA_HARNESSES = [('C04', 'graph_add_edge')]
 MOD = "props.C10"
 instantiate = graphprops.inst_C10
@@ -13,6 +13,9 @@ descs = graphprops.descs_C10
 
 
 def bounded(tier, seed, rep):
+    from bounded import leancheck
+    leancheck.check(rep, "lean/Crossable.lean", ["C10.enc_iff_strand", "C10.flags_determined"])
+    leancheck.check(rep, "lean/Encoders.lean", ["C04.enc_iff_connected"])
     emission.run_parallel(rep, PROP, MOD, list(descs(tier)) + graphprops.deep_descs(PROP, tier))
 
 
@@ -35,3 +38,21 @@ LEVEL_NOTE = ("trusted: specs/den.py, specs/graphpred.py, z3 on the per-pattern 
               "the native graph operators; strand semantics as in the statement: straight pairs pass through each other at a 4-way point; scope as in coverage.rule")
 TRUSTED = ["specs/den.py", "specs/graphpred.py", "z3 (per-pattern satisfiability)", "operand layout of the native graph operators"]
 ASSUMPTIONS = ["bounded scope (see rule)", "strand semantics as in the statement: straight pairs pass through each other at a 4-way point"]
+
+
+# ---- emission contracts (pyvc) + Lean lemma over them
+TECHNIQUE = ("emission contracts + lemma: pyvc proves on the real active_edges_connected_crossable, for every frame size and both values of "
+             "single_cycle, that it posts exactly the degree rules per lattice point, the four array-wise flag definitions "
+             "(contracts/c10_emission.py) and hands the stated auxiliary graph with the aligned activity list to the connectivity "
+             "constraint (crossable_aux_graph); Lean 4 + Mathlib proves over an abstract frame (points, segments with two ends and a "
+             "direction, border points, the two lattice facts) that such flags exist iff the degrees are 0/1/2/4 (0/2/4 for a cycle, 4 "
+             "never on the border) and the active segments form one strand, and that the flags are then determined "
+             "(C10.enc_iff_strand, C10.flags_determined in lean/Crossable.lean; the connectivity constraint itself is "
+             "C04.enc_iff_connected); re-checked by `lean` on every run. " + TECHNIQUE)
+LEVEL_TEXT = ("exploration overall: the crossable constraint is PROVED in machine-checked pieces (two pyvc emission contracts on the real "
+              "code, the Lean lemma over them, C04's lemma for the connectivity constraint); the translation between them (node "
+              "numbering -> abstract nodes, vertex_neighbors -> segments at a point) is by hand and cross-checked by the bounded tier; the "
+              "native route and the end-to-end statement stay bounded. " + LEVEL_TEXT)
+ASSUMPTIONS = ASSUMPTIONS + ["hand translation of the two emission contracts into the abstract frame of lean/Crossable.lean (cross-checked by the bounded tier)",
+                             "lattice geometry: at most two segments of either direction at a point, at most three at a border point (C14 accessor contracts)",
+                             "Lean 4 kernel + Mathlib"]
